@@ -28,7 +28,7 @@ PROPERTIES = ['NoveltyExact', 'Kept']
 # measured: the replay is bound by page faults after fork and start-up of the interpreters, which do not
 # scale with the number of processes on this kind of machine (3, 6 and 16 shards: same throughput)
 SHARDS = int(os.environ.get('VERIF_C07_SHARDS', '4'))
-SITES = ['mkstemp', 'dump', 'chmod', 'md5', 'sha1', 'encoded', 'exists', 'moved', 'setitem', 'presend', 'sent', 'idle']
+SITES = ['mkstemp', 'dump', 'chmod', 'md5', 'sha1', 'encoded', 'exists', 'midcopy', 'moved', 'setitem', 'presend', 'sent', 'idle']
 
 
 def consts(keys, contents, maxupd, maxev, record_first=False):
@@ -96,6 +96,9 @@ WITNESSES = [
     ('repeated content', lambda h: len([op for op in h if op['op'] == 'upd' and op['site'] == 'none']) > len({op['c'] for op in h if op['op'] == 'upd' and op['site'] == 'none'})),
     ('repeated key', lambda h: len([op for op in h if op['op'] == 'upd' and op['site'] in ('none', 'presend', 'sent', 'setitem')]) > len({op['k'] for op in h if op['op'] == 'upd' and op['site'] in ('none', 'presend', 'sent', 'setitem')})),
     ('same content offered again after a failed move', lambda h: any(op['op'] == 'upd' and op['site'] == 'movefail' and any(o2['op'] == 'upd' and o2['site'] == 'none' and o2['c'] == op['c'] for o2 in h[i + 1 :]) and not any(o2['op'] in ('open', 'close', 'crash') for o2 in h[i + 1 :]) for i, op in enumerate(h))),
+    ('same content offered again after a kill inside its transfer into the store', lambda h: any(op['op'] == 'upd' and op['site'] == 'midcopy' and any(o2['op'] == 'upd' and o2['site'] == 'none' and o2['c'] == op['c'] for o2 in h[i + 1 :]) for i, op in enumerate(h))),
+    ('staged file of a content that is not in the store is lost', lambda h: any(op['op'] == 'upd' and op['site'] == 'stagedlost' and not any(o2['op'] == 'upd' and o2['c'] == op['c'] and o2['site'] in ('none', 'moved', 'setitem', 'presend', 'sent') for o2 in h[:i]) for i, op in enumerate(h))),
+    ('staged file of a content that is in the store is lost', lambda h: any(op['op'] == 'upd' and op['site'] == 'stagedlost' and any(o2['op'] == 'upd' and o2['c'] == op['c'] and o2['site'] == 'none' for o2 in h[:i]) and not any(o2['op'] == 'purge' for o2 in h[:i]) for i, op in enumerate(h))),
     ('file moved then crash', lambda h: h[-1]['op'] == 'upd' and h[-1]['site'] == 'moved' and h[-1]['c'] not in {op['c'] for op in h[:-1]}),
 ]
 
@@ -113,12 +116,15 @@ def select(cases, hist):
             taken.add(key)
             must.append(h)
 
-    for site in sorted(by):
-        for h in by[site][:1]:
-            take(h)
+    # witnesses first; a class that a history already taken belongs to needs no history of its own
     for _name, pred in WITNESSES:
-        for h in [h for h in cases if pred(h)][:1]:
-            take(h)
+        if not any(pred(h) for h in must):
+            for h in [h for h in cases if pred(h)][:1]:
+                take(h)
+    for site in sorted(by):
+        if not any(last_site(h) == site for h in must):
+            for h in by[site][:1]:
+                take(h)
     for h in (hist if len(hist) <= 80 else hist[:2]):
         take(h)
     rest = []
@@ -160,8 +166,13 @@ def count(files, counters):
             for ln in f:
                 t = json.loads(ln)
                 prev = None
+                torn = set()
                 for s in t['steps']:
                     ev, st = s['ev'], s['st']
+                    if ev == 'Crash' and s['obs']['site'] == 'midcopy' and prev:
+                        torn.add(prev['st']['uc'])
+                    if ev == 'Answer' and prev and prev['st']['uc'] in torn:
+                        counters['answered_again_after_kill_inside_transfer'] += 1
                     counters['steps_' + ev] += 1
                     if ev == 'Answer':
                         counters['answers_new' if s['obs']['isnew'] else 'answers_old'] += 1
@@ -173,6 +184,10 @@ def count(files, counters):
                         counters['record_overwrites_entry'] += 1
                     if ev == 'MoveFails':
                         counters['failed_moves_survived'] += 1
+                    if ev == 'StagedLost':
+                        counters['staged_files_lost'] += 1
+                        if prev and not prev['st']['uname'] in {b['n'] for b in st['blobs']}:
+                            counters['staged_file_lost_content_not_stored'] += 1
                     if ev == 'Crash':
                         counters['crash_at_' + s['obs']['site']] += 1
                         names = {p[1] for p in st['prime']}
@@ -282,7 +297,7 @@ def run(pid, tier, seed, replay=None):
     chk.counters.update(transitions_of_gen_instance=total, crash_free_histories_of_gen_instance=nhist, histories_replayed=len(jobs), replay_seconds_budget=seconds, distinct_nontrivial=nontrivial)
     # vacuity: every antecedent must have been true on the real code
     if not chk.violations and not os.environ.get('VERIF_MUTANT') and not os.environ.get('VERIF_CORRUPT'):
-        need = ['answers_new', 'answers_old', 'move_discarded', 'move_renamed', 'record_held_back', 'record_overwrites_entry', 'crash_leaves_unreferenced_file', 'crash_leaves_staging_file', 'crash_loses_catalogue_entry', 'steps_Purge', 'steps_Close']  # fmt: skip
+        need = ['answers_new', 'answers_old', 'move_discarded', 'move_renamed', 'record_held_back', 'record_overwrites_entry', 'crash_leaves_unreferenced_file', 'crash_leaves_staging_file', 'crash_loses_catalogue_entry', 'steps_Purge', 'steps_Close', 'failed_moves_survived', 'staged_file_lost_content_not_stored', 'answered_again_after_kill_inside_transfer']  # fmt: skip
         need += ['crash_at_' + s for s in SITES]
         missing = [n for n in need if counters[n] == 0]
         if missing:
